@@ -1800,6 +1800,14 @@ class CreateQueryBuilder:
         self._foreign_key_on_update: ReferenceOption = None
         self._foreign_key_on_delete: ReferenceOption = None
 
+    def __copy__(self) -> "CreateQueryBuilder":
+        newone = type(self).__new__(type(self))
+        newone.__dict__.update(self.__dict__)
+        newone._columns = copy(self._columns)
+        newone._period_fors = copy(self._period_fors)
+        newone._uniques = copy(self._uniques)
+        return newone
+
     def _set_kwargs_defaults(self, kwargs: dict) -> None:
         kwargs.setdefault("quote_char", self.QUOTE_CHAR)
         kwargs.setdefault("secondary_quote_char", self.SECONDARY_QUOTE_CHAR)
